@@ -35,3 +35,65 @@ impl<'a, K, V> Iterator for Values<'a, K, V> { type Item = &'a V; fn next(&mut s
 impl<'a, K, V> IntoIterator for &'a HashMap<K, V> { type Item = (&'a K, &'a V); type IntoIter = Iter<'a, K, V>; fn into_iter(self) -> Iter<'a, K, V> { Iter { it: self.items.iter() } } }
 impl<K, V> IntoIterator for HashMap<K, V> { type Item = (K, V); type IntoIter = std::vec::IntoIter<(K, V)>; fn into_iter(self) -> Self::IntoIter { self.items.into_iter() } }
 impl<K: Eq, V> std::iter::FromIterator<(K, V)> for HashMap<K, V> { fn from_iter<I: IntoIterator<Item = (K, V)>>(it: I) -> Self { let mut m = HashMap::new(); for (k, v) in it { m.insert(k, v); } m } }
+// ---- wider API surface (so that realistic edits of the repository still compile against the model)
+impl<K: Eq, V> HashMap<K, V> {
+    pub fn entry(&mut self, k: K) -> Entry<'_, K, V> {
+        match self.pos(&k) { Some(i) => Entry::Occupied(OccupiedEntry { m: self, i }), None => Entry::Vacant(VacantEntry { m: self, k }) }
+    }
+    pub fn get_key_value<Q: ?Sized + Eq>(&self, k: &Q) -> Option<(&K, &V)> where K: Borrow<Q> { match self.pos(k) { Some(i) => Some((&self.items[i].0, &self.items[i].1)), None => None } }
+    pub fn remove_entry<Q: ?Sized + Eq>(&mut self, k: &Q) -> Option<(K, V)> where K: Borrow<Q> { match self.pos(k) { Some(i) => Some(self.items.remove(i)), None => None } }
+    pub fn values_mut(&mut self) -> ValuesMut<'_, K, V> { ValuesMut { it: self.items.iter_mut() } }
+    pub fn iter_mut(&mut self) -> IterMut<'_, K, V> { IterMut { it: self.items.iter_mut() } }
+    pub fn retain<F: FnMut(&K, &mut V) -> bool>(&mut self, mut f: F) {
+        let mut i = 0;
+        while i < self.items.len() { let keep = { let kv = &mut self.items[i]; f(&kv.0, &mut kv.1) }; if keep { i += 1; } else { self.items.remove(i); } }
+    }
+    pub fn drain(&mut self) -> std::vec::IntoIter<(K, V)> { std::mem::replace(&mut self.items, Vec::new()).into_iter() }
+    pub fn into_keys(self) -> std::vec::IntoIter<K> { let mut v = Vec::new(); for (k, _) in self.items { v.push(k); } v.into_iter() }
+    pub fn into_values(self) -> std::vec::IntoIter<V> { let mut v = Vec::new(); for (_, x) in self.items { v.push(x); } v.into_iter() }
+    pub fn capacity(&self) -> usize { self.items.len() }
+    pub fn reserve(&mut self, _n: usize) {}
+    pub fn shrink_to_fit(&mut self) {}
+}
+impl<K: Eq, V> Default for HashMap<K, V> { fn default() -> Self { HashMap::new() } }
+impl<K: Eq, V> Extend<(K, V)> for HashMap<K, V> { fn extend<I: IntoIterator<Item = (K, V)>>(&mut self, it: I) { for (k, v) in it { self.insert(k, v); } } }
+impl<K: Eq, V: PartialEq> PartialEq for HashMap<K, V> {
+    fn eq(&self, o: &Self) -> bool {
+        if self.items.len() != o.items.len() { return false; }
+        let mut i = 0;
+        while i < self.items.len() { match o.get(&self.items[i].0) { Some(v) => { if *v != self.items[i].1 { return false; } } None => return false } i += 1; }
+        true
+    }
+}
+impl<K: Eq + Borrow<Q>, Q: ?Sized + Eq, V> std::ops::Index<&Q> for HashMap<K, V> { type Output = V; fn index(&self, k: &Q) -> &V { self.get(k).expect("no entry found for key") } }
+pub enum Entry<'a, K, V> { Occupied(OccupiedEntry<'a, K, V>), Vacant(VacantEntry<'a, K, V>) }
+pub struct OccupiedEntry<'a, K, V> { m: &'a mut HashMap<K, V>, i: usize }
+pub struct VacantEntry<'a, K, V> { m: &'a mut HashMap<K, V>, k: K }
+impl<'a, K, V> OccupiedEntry<'a, K, V> {
+    pub fn get(&self) -> &V { &self.m.items[self.i].1 }
+    pub fn get_mut(&mut self) -> &mut V { &mut self.m.items[self.i].1 }
+    pub fn into_mut(self) -> &'a mut V { &mut self.m.items[self.i].1 }
+    pub fn insert(&mut self, v: V) -> V { std::mem::replace(&mut self.m.items[self.i].1, v) }
+    pub fn remove(self) -> V { self.m.items.remove(self.i).1 }
+    pub fn key(&self) -> &K { &self.m.items[self.i].0 }
+}
+impl<'a, K, V> VacantEntry<'a, K, V> {
+    pub fn insert(self, v: V) -> &'a mut V { self.m.items.push((self.k, v)); let n = self.m.items.len(); &mut self.m.items[n - 1].1 }
+    pub fn key(&self) -> &K { &self.k }
+}
+impl<'a, K, V> Entry<'a, K, V> {
+    pub fn or_insert(self, v: V) -> &'a mut V { match self { Entry::Occupied(o) => o.into_mut(), Entry::Vacant(e) => e.insert(v) } }
+    pub fn or_insert_with<F: FnOnce() -> V>(self, f: F) -> &'a mut V { match self { Entry::Occupied(o) => o.into_mut(), Entry::Vacant(e) => e.insert(f()) } }
+    pub fn or_default(self) -> &'a mut V where V: Default { match self { Entry::Occupied(o) => o.into_mut(), Entry::Vacant(e) => e.insert(V::default()) } }
+    pub fn and_modify<F: FnOnce(&mut V)>(self, f: F) -> Self { match self { Entry::Occupied(mut o) => { f(o.get_mut()); Entry::Occupied(o) } Entry::Vacant(e) => Entry::Vacant(e) } }
+    pub fn key(&self) -> &K { match self { Entry::Occupied(o) => o.key(), Entry::Vacant(e) => e.key() } }
+}
+pub struct ValuesMut<'a, K, V> { it: std::slice::IterMut<'a, (K, V)> }
+impl<'a, K, V> Iterator for ValuesMut<'a, K, V> { type Item = &'a mut V; fn next(&mut self) -> Option<&'a mut V> { self.it.next().map(|kv| &mut kv.1) } }
+pub struct IterMut<'a, K, V> { it: std::slice::IterMut<'a, (K, V)> }
+impl<'a, K, V> Iterator for IterMut<'a, K, V> { type Item = (&'a K, &'a mut V); fn next(&mut self) -> Option<Self::Item> { self.it.next().map(|kv| (&kv.0, &mut kv.1)) } }
+impl<'a, K, V> IntoIterator for &'a mut HashMap<K, V> { type Item = (&'a K, &'a mut V); type IntoIter = IterMut<'a, K, V>; fn into_iter(self) -> IterMut<'a, K, V> { IterMut { it: self.items.iter_mut() } } }
+impl<'a, K, V> ExactSizeIterator for Iter<'a, K, V> { fn len(&self) -> usize { self.it.len() } }
+impl<'a, K, V> ExactSizeIterator for Values<'a, K, V> { fn len(&self) -> usize { self.it.len() } }
+impl<'a, K, V> Clone for Keys<'a, K, V> { fn clone(&self) -> Self { Keys { it: self.it.clone() } } }
+impl<'a, K, V> Clone for Values<'a, K, V> { fn clone(&self) -> Self { Values { it: self.it.clone() } } }
